@@ -90,11 +90,18 @@ def roles_of(expr, fi, role_words, depth=0, seen=None):
                                     elif isinstance(v, ast.Call) and isinstance(v.func, ast.Name) and v.func.id == "zip" and len(v.args) == 1 and isinstance(v.args[0], ast.Starred):
                                         # xs, ... = zip(*gen()) : i-th component of what the generator yields
                                         gen_call = v.args[0].value
+                                        gfi = None
                                         if isinstance(gen_call, ast.Call) and isinstance(gen_call.func, ast.Name) and gen_call.func.id in f.nested:
                                             gfi = f.nested[gen_call.func.id]
-                                            for y in ast.walk(gfi.node):
-                                                if isinstance(y, ast.Yield) and isinstance(y.value, ast.Tuple) and i < len(y.value.elts):
-                                                    out |= roles_of(y.value.elts[i], gfi, role_words, depth + 1, seen2)
+                                        elif isinstance(gen_call, ast.Call) and isinstance(gen_call.func, ast.Attribute) and norm(gen_call.func.value) == "self" and f.cls is not None:
+                                            gfi = _method_of(f, gen_call.func.attr)
+                                        if gfi is None:
+                                            raise AnalysisError("idiom changed: `%s` unpacks what `%s` generates, which the analysis cannot follow" % (norm(n)[:50], norm(gen_call)[:40]))
+                                        for y in ast.walk(gfi.node):
+                                            if not isinstance(y, ast.Yield):
+                                                continue
+                                            comp = _yield_component(gfi, y.value, i)
+                                            out |= roles_of(comp, gfi, role_words, depth + 1, seen2)
                 elif isinstance(n, ast.AugAssign) and isinstance(n.target, ast.Name) and n.target.id == e.id:
                     pass      # masks / accumulations do not change provenance of the values
                 elif isinstance(n, (ast.For, ast.comprehension)):
@@ -118,6 +125,37 @@ def roles_of(expr, fi, role_words, depth=0, seen=None):
     if isinstance(e, ast.IfExp):
         return roles_of(e.body, fi, role_words, depth + 1, seen) | roles_of(e.orelse, fi, role_words, depth + 1, seen)
     return set()
+
+
+def _method_of(f, name):
+    """The method `name` of f's class or of one of its bases in the analysed program."""
+    return f.cls.find_method(name) if f.cls is not None else None
+
+
+def _yield_component(gfi, yv, i):
+    """The i-th component of a yielded record: a tuple display, or a call of a namedtuple defined at module
+    level (positional or by field name)."""
+    if isinstance(yv, ast.Tuple):
+        if i < len(yv.elts) and not any(isinstance(x, ast.Starred) for x in yv.elts):
+            return yv.elts[i]
+        raise AnalysisError("idiom changed: yielded record `%s` has no component %d" % (norm(yv)[:50], i))
+    if isinstance(yv, ast.Call) and isinstance(yv.func, ast.Name):
+        fields = None
+        for st in gfi.module.tree.body:
+            if isinstance(st, ast.Assign) and len(st.targets) == 1 and norm(st.targets[0]) == yv.func.id and isinstance(st.value, ast.Call) \
+                    and norm(st.value.func) in ("collections.namedtuple", "namedtuple") and len(st.value.args) == 2:
+                fa = st.value.args[1]
+                if isinstance(fa, (ast.Tuple, ast.List)) and all(isinstance(x, ast.Constant) and isinstance(x.value, str) for x in fa.elts):
+                    fields = [x.value for x in fa.elts]
+                elif isinstance(fa, ast.Constant) and isinstance(fa.value, str):
+                    fields = fa.value.replace(",", " ").split()
+        if fields is not None and i < len(fields) and not any(isinstance(a, ast.Starred) for a in yv.args) and not any(k.arg is None for k in yv.keywords):
+            if i < len(yv.args):
+                return yv.args[i]
+            for k in yv.keywords:
+                if k.arg == fields[i]:
+                    return k.value
+    raise AnalysisError("idiom changed: yielded record `%s` is neither a tuple display nor a module-level namedtuple" % norm(yv)[:60])
 
 
 # ------------------------------------------------------------------ taint
@@ -2183,4 +2221,108 @@ def c17_scatter_norm_rule(ctx, rid):
             rr.ok("scatter: cmap together with norm / limits")
         else:
             raise AnalysisError("idiom changed: how plot_scatter passes the colour map")
+    return rr
+
+
+# ------------------------------------------------------------------ colour map resolution is stateless
+_MUTATING_METHODS = {"setdefault", "update", "append", "add", "pop", "popitem", "clear", "insert", "extend", "remove", "__setitem__"}
+
+
+def _runtime_state(mod):
+    """Module-level names bound to a mutable container that some function of the module writes at run time
+    -> {name: (function node, writing node)}."""
+    conts = set()
+    for st in mod.tree.body:
+        if isinstance(st, ast.Assign) and len(st.targets) == 1 and isinstance(st.targets[0], ast.Name):
+            v = st.value
+            if isinstance(v, (ast.Dict, ast.List, ast.Set)) or (isinstance(v, ast.Call) and norm(v.func) in (
+                    "dict", "list", "set", "collections.OrderedDict", "OrderedDict", "collections.defaultdict", "defaultdict", "weakref.WeakKeyDictionary", "weakref.WeakValueDictionary")):
+                conts.add(st.targets[0].id)
+    written = {}
+    for fn in ast.walk(mod.tree):
+        if not isinstance(fn, (ast.FunctionDef, ast.Lambda)):
+            continue
+        for n in ast.walk(fn):
+            nm = None
+            if isinstance(n, ast.Subscript) and isinstance(n.ctx, (ast.Store, ast.Del)) and isinstance(n.value, ast.Name):
+                nm = n.value.id
+            elif isinstance(n, ast.Call) and isinstance(n.func, ast.Attribute) and n.func.attr in _MUTATING_METHODS and isinstance(n.func.value, ast.Name):
+                nm = n.func.value.id
+            elif isinstance(n, ast.Global):
+                for g_ in n.names:
+                    written.setdefault(g_, (fn, n))
+            if nm in conts:
+                written.setdefault(nm, (fn, n))
+    return written
+
+
+def _cmap_state_findings(prog_funcs, entry, state_of):
+    """Functions reachable from `entry` through same-module calls; every read of run-time-written module state in them
+    -> list of (fi, node, container, key expression or None)."""
+    seen, todo, out = set(), [entry], []
+    while todo:
+        f = todo.pop()
+        if f.qualname in seen:
+            continue
+        seen.add(f.qualname)
+        st = state_of(f.module)
+        for n in ast.walk(f.node):
+            if isinstance(n, ast.Name) and isinstance(n.ctx, ast.Load) and n.id in st and n.id not in f.params:
+                par = getattr(n, "_parent", None)
+                key = None
+                if isinstance(par, ast.Subscript) and par.value is n:
+                    key = par.slice
+                elif isinstance(par, ast.Attribute) and isinstance(getattr(par, "_parent", None), ast.Call) and par.attr in ("get", "setdefault", "pop", "__getitem__") and par._parent.args:
+                    key = par._parent.args[0]
+                elif isinstance(par, ast.Compare) and n in par.comparators:
+                    key = par.left
+                out.append((f, n, n.id, key))
+            if isinstance(n, ast.Call) and isinstance(n.func, ast.Name) and n.func.id in prog_funcs(f.module):
+                todo.append(prog_funcs(f.module)[n.func.id])
+    return seen, out
+
+
+def c17_cmap_state_rule(ctx, rid):
+    """The colour map a plot uses is resolved from the plot's own `colormap` option: neither the resolver nor a helper
+    it calls reads module-level state that the program writes at run time (a memo keyed by a label is another
+    plot's map)."""
+    prog = ctx.prog
+    rr = ctx.rule(rid, "colour map resolution reads no module state written at run time (the map used is the one chosen for this plot)", floor=2)
+    P = prog.need_cls(CORE + ".Plotter")
+    ccn = P.methods.get("calc_color_norm")
+    need(ccn is not None, "anchor lost: Plotter.calc_color_norm")
+    ctx.touch(ccn)
+    res = [c for c in ast.walk(ccn.node) if isinstance(c, ast.Call) and any(norm(a_) == "self.colormap" for a_ in c.args)
+           and any(isinstance(p_, ast.Assign) and norm(p_.targets[0]) == "self.cmap" for p_ in _parents(c))]
+    need(len(res) == 1, "anchor lost: self.cmap = <resolver>(self.colormap, ...) in calc_color_norm")
+    from ..util import callee_func
+    entry = callee_func(ctx, ccn, res[0])
+    need(entry is not None and hasattr(entry, "node"), "anchor lost: the colour map resolver `%s` does not resolve to a function of the package" % norm(res[0].func))
+    cache = {}
+
+    def state_of(mod):
+        if mod.name not in cache:
+            cache[mod.name] = _runtime_state(mod)
+        return cache[mod.name]
+
+    def funcs_of(mod):
+        return mod.funcs
+    seen, reads = _cmap_state_findings(funcs_of, entry, state_of)
+    for q in sorted(seen):
+        ctx.touch(prog.func(q))
+    # self-check of the detector on a two-line example (the rule's expected count on the tree is zero)
+    probe = ast.parse("_M = {}\ndef f(c):\n    return _M.setdefault(c.name, c.reversed())\n")
+    pm = type("M", (), {"tree": probe, "name": "<probe>"})()
+    need("_M" in _runtime_state(pm), "internal: the run-time state detector no longer recognises its own example")
+    for f, n, cont, key in reads:
+        proj = isinstance(key, ast.Attribute) and isinstance(key.value, ast.Name) and key.value.id in f.params
+        if proj:
+            rr.bad(ctx.finding(rid, f, n, "`%s` keeps results across calls keyed by `%s`, an attribute of the colour map and not the map itself: a later plot whose map has the same %s gets the earlier plot's map, so its colours are not the chosen colour map evaluated at the normalised values" % (cont, norm(key), key.attr),
+                               construct="cmap-memo-by-attribute " + f.name), "%s: stateless" % f.name)
+        else:
+            raise AnalysisError("idiom changed: %s reads the run-time-written module container `%s` (key `%s`); whether equal keys mean equal colour maps is not analysed" % (f.name, cont, norm(key) if key is not None else "?"))
+    if not reads:
+        for q in sorted(seen):
+            rr.ok("%s reads no module-level container written at run time" % q.split(".")[-1])
+        rr.ok("detector self-check: the memo example is recognised")
     return rr
